@@ -41,7 +41,12 @@ theorem decodeTrack_eq : decodeTrack = Impl.V2.decodeTrack := by
   simp only [CxxPrims.decode_uint8_eq, CxxPrims.decode_int32_le_eq, CxxPrims.decode_int32_be_eq,
     CxxPrims.decode_int64_le_eq, CxxPrims.decode_int64_be_eq, CxxPrims.decode_double_le_eq,
     CxxPrims.decode_double_be_eq]
-  by_cases h : bs.length < 44 <;> simp [h, Res.bind]
+  -- (both readings of the length test are discharged: `buf.size() < 44` and `end - ptr < 44`)
+  by_cases h : bs.length < 44
+  · have hi : (bs.length : Int) < 44 := by omega
+    simp [h, hi, Res.bind]
+  · have hi : ¬ ((bs.length : Int) < 44) := by omega
+    simp [h, hi, Res.bind]
 
 /-! ### beat data -/
 
@@ -87,7 +92,11 @@ theorem decodeBeat_eq : decodeBeat = Impl.V2.decodeBeat := by
     CxxPrims.decode_int64_le_eq, CxxPrims.decode_int64_be_eq, CxxPrims.decode_double_le_eq,
     CxxPrims.decode_double_be_eq]
   rw [decodeGrid_eq]
-  by_cases h : bs.length < 33 <;> simp [h, Res.bind]
+  by_cases h : bs.length < 33
+  · have hi : (bs.length : Int) < 33 := by omega
+    simp [h, hi, Res.bind]
+  · have hi : ¬ ((bs.length : Int) < 33) := by omega
+    simp [h, hi, Res.bind]
 
 /-! ### loops -/
 
